@@ -7,7 +7,13 @@ package eacl
 // the node passed. The real method is renamed to CalculateAction__real.
 var VerifHookCalculateAction func(table *Table, role Role, op Operation) (Action, bool, error)
 
+// VerifHookUnit additionally shows the requester identity handed to the validator.
+var VerifHookUnit func(key, account []byte)
+
 func (v *Validator) CalculateAction(unit *ValidationUnit) (Action, bool, error) {
+	if h := VerifHookUnit; h != nil {
+		h(unit.key, unit.account)
+	}
 	if h := VerifHookCalculateAction; h != nil {
 		return h(unit.table, unit.role, unit.op)
 	}
